@@ -18,6 +18,7 @@ RULE = ("labelled data (2-4 classes 0..k-1, d=2 (3 in thorough), 40-200 samples,
 RULE += (" " + 'In a third of the cases the learning range is given explicitly (data_range wider than the data); evaluated sets include samples exactly ON the learned range (learning samples attaining a minimum/maximum, corners).')
 RULE += (" Between the calls the user modifies the copies handed out by get_testing_data / get_learning_data / get_omitted_data (revert_scaling, scale_factor, scale_range, shift_value, shuffle, remove_samples).")
 RULE += (" Half of the evaluated data sets are built directly on the caller's arrays, which must come back unmodified.")
+RULE += (" The per-class densities are cross-checked against the hat expansion of the estimators' own surpluses; a few standard-mode cases use maximum level 8 (component grids above the 200-point switch).")
 REQUIRED = ["argmax_class", "removed_samples_exact", "entirely_outside_raises", "summary_consistent", "earlier_results_stable",
             "testset_prefix_stable", "unlabelled_not_classified", "evaluate_consistent"]
 MIN_NONTRIVIAL = {"quick": 30, "thorough": 500}
@@ -65,6 +66,9 @@ def run_case(case, res):
     cfg = {"d": d, "classes": k, "n": n, "unlabelled_in_learning": with_unl, "split": split, "split_evenly": rng.random() < 0.5,
            "shuffle": rng.random() < 0.5, "mode": rng.choice(["standard", "standard", "dimwise"]), "masslumping": rng.random() < 0.5,
            "one_vs_others": rng.random() < 0.3, "lambda": rng.choice([0.0, 0.01, 0.1]), "lmax": rng.choice([2, 3, 4])}
+    if d == 2 and cfg["mode"] == "standard" and rng.random() < 0.06:
+        cfg["lmax"], cfg["masslumping"] = 8, True     # component grids above the 200-point switch (255 x 1 ...)
+        res.count("large_component_grids")
     res.sample = {"config": cfg}
     lab = y >= 0
     mn, mx = X[lab].min(axis=0), X[lab].max(axis=0)
@@ -102,6 +106,26 @@ def run_case(case, res):
         with contextlib.redirect_stdout(io.StringIO()):
             return np.array([np.asarray(e([tuple(p) for p in S]), dtype=float).reshape(len(S)) for e in estimators]).T
 
+    def densities_ref(S):
+        """hat expansion of the stored surpluses of every estimator (independent of the library's interpolation code)"""
+        from vlib import demodel
+        out = []
+        for e in estimators:
+            tot = np.zeros(len(S))
+            for g in e.scheme:
+                lv = tuple(int(x) for x in g.levelvector)
+                al = np.asarray(e.operation.surpluses[lv], dtype=float)
+                if hasattr(e, "get_point_coord_for_each_dim"):
+                    coords, _, _ = e.get_point_coord_for_each_dim(list(lv))
+                    xs = [[float(x) for x in cd] for cd in coords]
+                else:
+                    xs = demodel.uniform_stripes(lv)
+                if int(np.prod([len(x) - 2 for x in xs])) != len(al):
+                    return None
+                tot += g.coefficient * demodel.interpolate(xs, al, [tuple(p) for p in S])
+            out.append(tot)
+        return np.array(out).T
+
     def expected_for(Xn):
         S = scaled(Xn, mn, mx)
         near = np.any((np.abs(S - 0.0049) < 1e-9) | (np.abs(S - 0.9951) < 1e-9), axis=1)
@@ -112,6 +136,13 @@ def run_case(case, res):
         if len(S_kept) == 0:
             return
         D = densities(S_kept)
+        try:
+            Dr = densities_ref(S_kept)
+        except Exception:
+            Dr = None
+        if Dr is not None:
+            res.close("density_matches_hat_expansion", D, Dr, 1e-8 * max(1.0, float(np.max(np.abs(Dr)))) * 8, "C19_density_differs_from_hat_expansion",
+                      "%s: the estimators' densities differ from the hat expansion of their own surpluses" % where, cfg)
         best = D.max(axis=1)
         chosen = D[np.arange(len(classes)), np.asarray(classes, dtype=int)]
         ok = np.abs(chosen - best) <= 1e-12 * np.maximum(1.0, np.abs(best))
